@@ -58,6 +58,16 @@ CHECKS = {
             'Truth for the launch part is what the child itself reports. Double quotes are only used for segments '
             'without a backslash (unspecified otherwise).',
             'DESIGN.md 3/C13'),
+    'C07': ('real descriptors with generated read sizes + scripted children (E3)',
+            'Hypothesis-generated text x codec x error policy x cut points pushed through real pipe/socketpair/'
+            'SocketSpawn/pty-child/Popen-child/asyncio transports; round trip against one-shot incremental decoding; '
+            'thorough adds an exhaustive 1- and 2-cut sweep of short streams',
+            'Round-trip oracle over 9 codecs, 3 error policies and every transport incl. asyncio, with read boundaries '
+            'forced by read_nonblocking(size=k)/maxread=k on pre-filled descriptors or by piece-wise writing children; '
+            'delivered text and logfile_read must equal one-shot decoding of the whole stream.',
+            'Inputs on which CPython\'s own incremental decoders are chunk-dependent are discarded (counted). pty children '
+            'only with ASCII-compatible codecs (spawn encodes argv with the instance encoding).',
+            'DESIGN.md 3/C07'),
     'C18': ('Hypothesis token grammar + exhaustive sweep + atheris',
             'Hypothesis-generated terminal token sequences with generated cut points; totality/shape/cursor/no-residue '
             'oracles and a chunking metamorphic relation; thorough adds an exhaustive <=4-token sweep on tiny screens and '
@@ -124,6 +134,10 @@ def main():
              'serves_properties': ['C01', 'C02', 'C03', 'C04', 'C20'],
              'kind_free_text': 'scripted transport (SpawnBase subclass playing a generated read script, virtual '
                                'clock) + naive reference model of the expect family + Hypothesis generators'},
+            {'name': 'E3', 'path': 'vf/engines/peers.py, peers/rawpeer.py, peers/probe.py',
+             'serves_properties': ['C07', 'C13'],
+             'kind_free_text': 'real peers: scripted pty/Popen children recording what they receive, pre-filled '
+                               'pipes/socketpairs, recording log files'},
             {'name': 'E4', 'path': 'vf/engines/screenmodel.py', 'serves_properties': ['C19'],
              'kind_free_text': 'reference grid for pexpect.screen written from the docstrings'},
         ],
